@@ -33,6 +33,15 @@ def _self_method_call(c):
     return None
 
 
+KNOWN_UPDATE_PHASES = {
+    "__init__", "parse_changes_list", "compute_mod_objs_computation_chain", "apply_changes", "rollback",
+    "make_simulation_specific_operations", "recompute_attributes", "old_sourcevalues", "new_sourcevalues",
+    "generate_optimized_attr_updates_chain", "compute_ancestors_not_in_computation_chain",
+    "compute_hourly_quantities_to_filter", "filter_hourly_quantities_to_filter",
+    "replace_ancestors_not_in_computation_chain_by_copies", "reset_values", "set_updated_values",
+    "link_simulated_and_baseline_twins"}
+
+
 class TxnAnalysis:
     """Summaries and ordered walk over the methods of ModelingUpdate."""
 
@@ -40,6 +49,29 @@ class TxnAnalysis:
         self.pm = pm
         self.rel, self.cls = pm.find_function(MU, "ModelingUpdate")
         self.methods = {f.name: f for f in self.cls.body if isinstance(f, ast.FunctionDef)}
+        # the constructor read with its *new* steps spliced in: a method that is not one of the known phases of an update
+        # (the names below are the ones the rules reason about) and that the constructor calls as a statement is a piece
+        # of the constructor split out for readability (`self.register_changes(changes_list)`)
+        from ..astutil import inline_helpers as _ih
+        steps = {n: f for n, f in self.methods.items() if n not in KNOWN_UPDATE_PHASES and not is_property(f)}
+        if steps and "__init__" in self.methods:
+            ini = self.methods["__init__"]
+            called = set()
+            for _ in range(2):
+                # only what the constructor calls as a top-level statement of its own body (a call inside its try / except
+                # — the restore — is a phase, whatever its name)
+                top = {st.value.func.attr for st in ini.body if isinstance(st, ast.Expr) and isinstance(st.value, ast.Call)
+                       and isinstance(st.value.func, ast.Attribute) and norm(st.value.func.value) == "self"}
+                called |= top
+                ini = _ih(ini, lambda name, _t=top: steps.get(name) if name in _t else None, max_body=60)
+            self.methods["__init__"] = ini
+            # a step that was spliced in (it returns nothing and is only called by the constructor) is no method of its own
+            for name in called & set(steps):
+                h = steps[name]
+                if not any(isinstance(x, ast.Return) and x.value is not None for x in ast.walk(h)) \
+                        and sum(1 for m_ in self.cls.body if isinstance(m_, ast.FunctionDef) for c in ast.walk(m_)
+                                if isinstance(c, ast.Attribute) and c.attr == name) == 1:
+                    self.methods.pop(name, None)
         self._mut, self._raise = {}, {}
 
     def summary(self, name, table, prims, seen=None):
@@ -222,6 +254,15 @@ def r_txn(E):
         fn = T.methods[handler_used]
         mentioned = {n.attr for n in ast.walk(fn) if isinstance(n, ast.Attribute) and isinstance(n.value, ast.Name)
                      and n.value.id == "self"}
+        # … or in a method / property of the object that the restore reads (the pairs built by a helper)
+        # (a method that the restore *calls*; a property that derives a filtered view of a list does not count as
+        # looking at the list)
+        for c in _calls(fn):
+            nm = _self_method_call(c)
+            h = T.methods.get(nm) if nm else None
+            if h is not None and nm not in ("rollback", "__init__") and not is_property(h):
+                mentioned |= {n.attr for n in ast.walk(h) if isinstance(n, ast.Attribute)
+                              and isinstance(n.value, ast.Name) and n.value.id == "self"}
         need = ["changes_list", "hourly_quantities_to_filter", "filtered_hourly_quantities",
                 "ancestors_to_replace_by_copies", "replaced_ancestors_copies", "values_to_recompute",
                 "recomputed_values"]
@@ -340,7 +381,7 @@ def r_mirror(E):
     if not (sa["recv_list"] == sb["arg_list"] and sa["arg_list"] == sb["recv_list"]):
         probs.append(f"set replaces {sa['recv_list']} by {sa['arg_list']} but reset replaces {sb['recv_list']} by "
                      f"{sb['arg_list']}")
-    rel0, init = pm.find_function(MU, "ModelingUpdate.__init__")
+    rel0, init = TxnAnalysis(pm).rel, TxnAnalysis(pm).methods["__init__"]
     prev_list = None
     for n in ast.walk(init):
         if isinstance(n, ast.Assign) and isinstance(n.targets[0], ast.Attribute) and norm(n.targets[0]) in sa["zargs"]:
@@ -915,6 +956,37 @@ def _flows_to_own_store(n, f, pm, depth=4, _seen=None):
                     cf = _enclosing(c)[1]
                     if cf is not None and _flows_to_own_store(c, cf, pm, depth - 1, seen):
                         return True
+        # a function listed in a module-level dispatch table and called through the loop that walks the table
+        # (`for applies, wrap in TABLE: if applies(v): x = wrap(…)`)
+        for mod, (rel, tree, src) in pm.modules.items():
+            for st in tree.body:
+                if not (isinstance(st, ast.Assign) and isinstance(st.targets[0], ast.Name)
+                        and isinstance(st.value, (ast.Tuple, ast.List))):
+                    continue
+                pos = None
+                for row in st.value.elts:
+                    if isinstance(row, (ast.Tuple, ast.List)):
+                        for i, x in enumerate(row.elts):
+                            if isinstance(x, ast.Name) and x.id == f.name:
+                                pos = i
+                if pos is None:
+                    continue
+                tname = st.targets[0].id
+                for m2, (r2, t2, _s2) in pm.modules.items():
+                    for loop in ast.walk(t2):
+                        # (the canonical model may have put the literal table in place of its name)
+                        over_table = isinstance(loop, ast.For) and (
+                            (isinstance(loop.iter, ast.Name) and loop.iter.id == tname)
+                            or (isinstance(loop.iter, (ast.Tuple, ast.List)) and any(
+                                isinstance(x, ast.Name) and x.id == f.name for x in ast.walk(loop.iter))))
+                        if over_table and isinstance(loop.target, ast.Tuple) and pos < len(loop.target.elts) \
+                                and isinstance(loop.target.elts[pos], ast.Name):
+                            var = loop.target.elts[pos].id
+                            for c in ast.walk(loop):
+                                if isinstance(c, ast.Call) and isinstance(c.func, ast.Name) and c.func.id == var:
+                                    cf = _enclosing(c)[1]
+                                    if cf is not None and _flows_to_own_store(c, cf, pm, depth - 1, seen):
+                                        return True
         return False
     return False
 
@@ -1211,7 +1283,7 @@ def r_guard(E):
         for n in ast.walk(tree):
             if isinstance(n, ast.FunctionDef):
                 defs.setdefault(n.name, []).append(n)
-    rel5, start = pm.find_function(MU, "ModelingUpdate.__init__")
+    rel5, start = TxnAnalysis(pm).rel, TxnAnalysis(pm).methods["__init__"]
     seen, todo = set(), [start]
     while todo:
         f = todo.pop()
